@@ -7,7 +7,7 @@
     Those premises are the trusted assumptions about Ed25519 / CBOR; [C16_premises_satisfiable]
     shows they are consistent (the symbolic instance used by the correspondence run). *)
 From Coq Require Import List NArith Bool Sorted FinFun.
-From PV Require Import Model.Timestamp Model.Ephemeral Proofs.Ephemeral Oracle.C16 Proofs.C16Oracle.
+From PV Require Import Model.Timestamp Model.Ephemeral Proofs.Ephemeral Proofs.EphemeralSeq Oracle.C16 Proofs.C16Oracle.
 Import ListNotations.
 Local Open Scope N_scope.
 
@@ -106,3 +106,43 @@ Theorem C16_oracle_pub_sound :
     Forall (fun o => snd o = true) outs.
 Proof. exact check_pub_sound. Qed.
 Print Assumptions C16_oracle_pub_sound.
+
+(** A subscription run over ANY sequence of incoming items ([sub_run]: the code, [accept] item
+    after item) yields exactly the authentic messages of the sequence, in order ([auth_filter]:
+    the specification, which does not mention [verify]): duplicates of an authentic message are
+    yielded again, a tampered / re-signed / forged message is never yielded, wherever it stands —
+    in particular directly after its authentic original.  [auth_filter] determines the result. *)
+Theorem C16_sequence_yields_authentic_only :
+  forall (key skey sigT bytes : Type) (sk_of : key -> skey) (sign : skey -> bytes -> sigT)
+         (verify : key -> bytes -> sigT -> bool) (enc : fields key -> bytes),
+    (forall p m s, verify p m s = true <-> s = sign (sk_of p) m) ->
+    forall (l : list (incoming key sigT)),
+      auth_filter key skey sigT bytes sk_of sign enc l (sub_run key sigT bytes verify enc l) /\
+      (forall ys, auth_filter key skey sigT bytes sk_of sign enc l ys -> ys = sub_run key sigT bytes verify enc l) /\
+      Forall (fun m => authentic key skey sigT bytes sk_of sign enc m /\ In (Decoded m) l)
+             (sub_run key sigT bytes verify enc l).
+Proof. exact sequence_yields_authentic_only. Qed.
+Print Assumptions C16_sequence_yields_authentic_only.
+
+Theorem C16_tampered_copy_after_original_rejected :
+  forall (key skey sigT bytes : Type) (sk_of : key -> skey) (sign : skey -> bytes -> sigT)
+         (verify : key -> bytes -> sigT -> bool) (enc : fields key -> bytes),
+    (forall p m s, verify p m s = true <-> s = sign (sk_of p) m) ->
+    forall (pre post : list (incoming key sigT)) (w w' : wrapped key sigT),
+      authentic key skey sigT bytes sk_of sign enc w -> ~ authentic key skey sigT bytes sk_of sign enc w' ->
+      let run := sub_run key sigT bytes verify enc in
+      run (pre ++ Decoded w :: Decoded w' :: post) = run pre ++ w :: run post /\
+      run (pre ++ Decoded w :: Decoded w :: Decoded w' :: post) = run pre ++ w :: w :: run post /\
+      run (pre ++ Decoded w' :: Decoded w :: post) = run pre ++ w :: run post.
+Proof. exact tampered_copy_after_original. Qed.
+Print Assumptions C16_tampered_copy_after_original_rejected.
+
+(** Oracle soundness (sequence part): an accepted observation contains authentic content only. *)
+Theorem C16_oracle_seq_sound :
+  forall (specs : list seq_spec),
+    (forall ys, check_bulk specs ys = true ->
+       Forall (fun y => exists s, In s specs /\ spec_authentic s = true /\ y = spec_obs s) ys) /\
+    (forall ys, check_step specs ys = true ->
+       Forall2 (fun s g => g = [] \/ (g = [spec_obs s] /\ spec_authentic s = true)) specs ys).
+Proof. exact (fun specs => conj (check_bulk_sound specs) (check_step_sound specs)). Qed.
+Print Assumptions C16_oracle_seq_sound.
